@@ -51,6 +51,11 @@
 #include <ompl/base/spaces/SO3StateSpace.h>
 #include <ompl/base/spaces/SE2StateSpace.h>
 #include <ompl/base/spaces/SE3StateSpace.h>
+#include <ompl/base/spaces/DubinsStateSpace.h>
+#include <ompl/base/spaces/ReedsSheppStateSpace.h>
+#include <ompl/base/spaces/WrapperStateSpace.h>
+#include <ompl/base/spaces/DiscreteStateSpace.h>
+#include <ompl/base/Goal.h>
 #include <ompl/util/RandomNumbers.h>
 #include <ompl/util/ProlateHyperspheroid.h>
 #include <ompl/util/GeometricEquations.h>
@@ -117,6 +122,28 @@ public:
     ob::StateSamplerPtr allocDefaultStateSampler() const override
     {
         return std::make_shared<ScriptedSampler>(this);
+    }
+};
+
+// a CompoundStateSpace whose getType() is set by the deriving class (what SE2StateSpace etc. do): lets the harness present
+// every (type, subspace list) combination the constructor of PathLengthDirectInfSampler distinguishes
+class TypedCompound : public ob::CompoundStateSpace
+{
+public:
+    TypedCompound(int type)
+    {
+        type_ = type;
+    }
+};
+
+// a goal that is NOT a sampleable region
+class PlainGoal : public ob::Goal
+{
+public:
+    PlainGoal(const ob::SpaceInformationPtr &si) : ob::Goal(si) {}
+    bool isSatisfied(const ob::State *) const override
+    {
+        return false;
     }
 };
 
@@ -206,7 +233,20 @@ static void setInformed(World &w, ob::State *s, const std::vector<double> &x)
         for (unsigned i = 0; i < w.n; ++i)
             r->values[i] = x[i];
     }
-    else if (w.kind == "se2")
+    else if (w.kind == "crv")
+    {
+        auto *r = s->as<ob::CompoundState>()->as<ob::RealVectorStateSpace::StateType>(0);
+        for (unsigned i = 0; i < w.n; ++i)
+            r->values[i] = x[i];
+    }
+    else if (w.kind == "se2x")
+    {
+        auto *r = s->as<ob::CompoundState>()->as<ob::RealVectorStateSpace::StateType>(1);
+        r->values[0] = x[0];
+        r->values[1] = x[1];
+        s->as<ob::CompoundState>()->as<ob::SO2StateSpace::StateType>(0)->value = 0.0;
+    }
+    else if (w.kind == "se2" || w.kind == "dubins" || w.kind == "rs")
     {
         auto *r = s->as<ob::SE2StateSpace::StateType>();
         r->setXY(x[0], x[1]);
@@ -224,6 +264,15 @@ static std::vector<double> allReals(World &w, const ob::State *s)
 {
     std::vector<double> v;
     w.space->copyToReals(v, s);
+    return v;
+}
+
+// copyToReals order with the informed (position) reals FIRST — the harness's own knowledge of each space kind, not the sampler's
+static std::vector<double> normReals(World &w, const ob::State *s)
+{
+    auto v = allReals(w, s);
+    if (w.kind == "se2x")
+        return {v[1], v[2], v[0]};
     return v;
 }
 
@@ -448,7 +497,7 @@ int main()
                     w.st = nullptr;
                 }
                 w.kind = t[1];
-                if (w.kind == "rv")
+                if (w.kind == "rv" || w.kind == "crv")
                 {
                     if (t.size() != 5 || !vp::parseNat(t[2]) || !vp::parseBits(t[3]) || !vp::parseBits(t[4]))
                     {
@@ -458,11 +507,24 @@ int main()
                     w.n = *vp::parseNat(t[2]);
                     w.lo = *vp::parseBits(t[3]);
                     w.hi = *vp::parseBits(t[4]);
-                    auto sp = std::make_shared<ScriptedRV>(w.n);
-                    sp->setBounds(w.lo, w.hi);
-                    w.space = sp;
+                    if (w.kind == "rv")
+                    {
+                        auto sp = std::make_shared<ScriptedRV>(w.n);
+                        sp->setBounds(w.lo, w.hi);
+                        w.space = sp;
+                    }
+                    else
+                    {
+                        // a CompoundStateSpace with ONE real-vector subspace (explicitly accepted by the constructor)
+                        auto rv = std::make_shared<ob::RealVectorStateSpace>(w.n);
+                        rv->setBounds(w.lo, w.hi);
+                        auto cs = std::make_shared<ob::CompoundStateSpace>();
+                        cs->addSubspace(rv, 1.0);
+                        cs->lock();
+                        w.space = cs;
+                    }
                 }
-                else if (w.kind == "se2" || w.kind == "se3")
+                else if (w.kind == "se2" || w.kind == "se3" || w.kind == "dubins" || w.kind == "rs" || w.kind == "se2x")
                 {
                     if (t.size() != 4 || !vp::parseBits(t[2]) || !vp::parseBits(t[3]))
                     {
@@ -471,7 +533,7 @@ int main()
                     }
                     w.lo = *vp::parseBits(t[2]);
                     w.hi = *vp::parseBits(t[3]);
-                    w.n = w.kind == "se2" ? 2 : 3;
+                    w.n = w.kind == "se3" ? 3 : 2;
                     ob::RealVectorBounds b(w.n);
                     b.setLow(w.lo);
                     b.setHigh(w.hi);
@@ -479,6 +541,29 @@ int main()
                     {
                         auto sp = std::make_shared<ob::SE2StateSpace>();
                         sp->setBounds(b);
+                        w.space = sp;
+                    }
+                    else if (w.kind == "dubins")
+                    {
+                        auto sp = std::make_shared<ob::DubinsStateSpace>();
+                        sp->setBounds(b);
+                        w.space = sp;
+                    }
+                    else if (w.kind == "rs")
+                    {
+                        auto sp = std::make_shared<ob::ReedsSheppStateSpace>();
+                        sp->setBounds(b);
+                        w.space = sp;
+                    }
+                    else if (w.kind == "se2x")
+                    {
+                        // SE(2)-typed compound with the subspaces the other way round: (SO2, R^2), weights as SE2StateSpace
+                        auto sp = std::make_shared<TypedCompound>(ob::STATE_SPACE_SE2);
+                        auto rv = std::make_shared<ob::RealVectorStateSpace>(2);
+                        rv->setBounds(b);
+                        sp->addSubspace(std::make_shared<ob::SO2StateSpace>(), 0.5);
+                        sp->addSubspace(rv, 1.0);
+                        sp->lock();
                         w.space = sp;
                     }
                     else
@@ -502,7 +587,7 @@ int main()
                 w.smp.reset();
                 w.direct.reset();
                 double inf = w.kind == "rv" ? w.space->getMeasure()
-                                            : w.space->as<ob::CompoundStateSpace>()->getSubspace(0)->getMeasure();
+                                            : w.space->as<ob::CompoundStateSpace>()->getSubspace(w.kind == "se2x" ? 1 : 0)->getMeasure();
                 std::cout << "space ok ~inf=" << bits(inf) << " ~tot=" << bits(w.space->getMeasure()) << "\n";
             }
             else if ((op == "starts" || op == "goals") && w.space && t.size() >= 2 && vp::parseNat(t[1]))
@@ -770,22 +855,45 @@ int main()
                 }
                 // compound spaces: the rotation comes from uninformedSubSampler_'s OWN generator (seed + 1), one draw per KEPT
                 // iteration (createFullState): SO2 -> uniformReal(-pi, pi), SO3 -> quaternion()
-                const size_t rdim = w.kind == "se2" ? 1 : (w.kind == "se3" ? 4 : 0);
+                // (whatever subspace the sampler took as "uninformed": SO2 -> 1 real, SO3 -> 4, a real-vector subspace -> its
+                // dimension, each coordinate uniformReal(low, high); none -> no draws)
+                int rtype = -1;
+                size_t rdim = 0;
+                if (w.direct->uninformedSubSampler_)
+                {
+                    rtype = w.direct->uninformedSubSpace_->getType();
+                    rdim = rtype == ob::STATE_SPACE_SO2 ? 1 : (rtype == ob::STATE_SPACE_SO3 ? 4 : w.direct->uninformedSubSpace_->getDimension());
+                }
+                auto rotDraw = [&](ompl::RNG &g, std::vector<double> *out) {
+                    if (rtype == ob::STATE_SPACE_SO2)
+                    {
+                        double y = g.uniformReal(-boost::math::constants::pi<double>(), boost::math::constants::pi<double>());
+                        if (out)
+                            out->push_back(y);
+                    }
+                    else if (rtype == ob::STATE_SPACE_SO3)
+                    {
+                        double q[4];
+                        g.quaternion(q);
+                        if (out)
+                            out->insert(out->end(), q, q + 4);
+                    }
+                    else
+                    {
+                        for (size_t a = 0; a < rdim; ++a)
+                        {
+                            double y = g.uniformReal(w.lo, w.hi);
+                            if (out)
+                                out->push_back(y);
+                        }
+                    }
+                };
                 std::vector<double> rots;
                 if (rdim)
                 {
                     ompl::RNG rtwin(seed + 1);
                     for (unsigned it = 0; it < lim; ++it)
-                    {
-                        if (rdim == 1)
-                            rots.push_back(rtwin.uniformReal(-boost::math::constants::pi<double>(), boost::math::constants::pi<double>()));
-                        else
-                        {
-                            double q[4];
-                            rtwin.quaternion(q);
-                            rots.insert(rots.end(), q, q + 4);
-                        }
-                    }
+                        rotDraw(rtwin, &rots);
                 }
                 if (op == "supp")
                 {
@@ -846,18 +954,13 @@ int main()
                             kept = it;
                             break;
                         }
-                        if (rdim == 1)
-                            rtwin2.uniformReal(-1.0, 1.0);
-                        else
-                        {
-                            double q[4];
-                            rtwin2.quaternion(q);
-                        }
+                        rotDraw(rtwin2, nullptr);
                     }
                 }
                 std::cout << op << " found=" << found << " used=" << used << " kept=" << kept << " ~x="
                           << (found ? vecBits(allReals(w, w.st)) : std::string("-"))
-                          << " inb=" << (found ? (w.space->satisfiesBounds(w.st) ? "1" : "0") : "-") << "\n";
+                          << " inb=" << (found ? (w.space->satisfiesBounds(w.st) ? "1" : "0") : "-")
+                          << " ~xi=" << (found ? vecBits(w.direct->getInformedSubstate(w.st)) : std::string("-")) << "\n";
             }
             else if (op == "iss" && w.smp && w.kind == "rv" && (w.skind == "direct" || w.skind == "rej") && t.size() == 2)
             {
@@ -993,6 +1096,137 @@ int main()
                     std::cout << op << " throw\n";
                 }
             }
+            else if (op == "ctor" && t.size() >= 8)
+            {
+                // ctor <objective 0/1> <numStarts> <goalSampleable 0/1> <numGoals> <compound 0/1> <castOk 0/1> <type> <subspace kinds…>
+                // builds a space that presents exactly this description to the constructor of PathLengthDirectInfSampler, a problem
+                // definition with that many starts / goals, and constructs the real sampler: which exception, or which indices
+                auto nat = [&](size_t k) { return vp::parseNat(t[k]); };
+                if (!nat(1) || !nat(2) || !nat(3) || !nat(4) || !nat(5) || !nat(6) || *nat(2) > 8 || *nat(4) > 8)
+                {
+                    std::cout << "bad-op\n";
+                    continue;
+                }
+                bool obj = *nat(1), gsamp = *nat(3), cmp = *nat(5), cast = *nat(6);
+                size_t ns = *nat(2), ng = *nat(4);
+                const std::string &ty = t[7];
+                std::vector<std::string> subs(t.begin() + 8, t.end());
+                std::map<std::string, int> tyEnum = {{"rv", ob::STATE_SPACE_REAL_VECTOR}, {"unknown", ob::STATE_SPACE_UNKNOWN},
+                                                     {"se2", ob::STATE_SPACE_SE2},        {"se3", ob::STATE_SPACE_SE3},
+                                                     {"dubins", ob::STATE_SPACE_DUBINS},  {"rs", ob::STATE_SPACE_REEDS_SHEPP},
+                                                     {"other", ob::STATE_SPACE_TIME}};
+                auto mkRV = [&]() {
+                    auto rv = std::make_shared<ob::RealVectorStateSpace>(2);
+                    rv->setBounds(-1.0, 1.0);
+                    return rv;
+                };
+                ob::StateSpacePtr sp;
+                bool realizable = tyEnum.count(ty) > 0;
+                if (realizable && !cmp)
+                {
+                    // a non-compound space is never a CompoundStateSpace object
+                    if (!subs.empty() || cast)
+                        realizable = false;
+                    else if (ty == "rv")
+                        sp = mkRV();
+                    else if (ty == "unknown")
+                        sp = std::make_shared<ob::WrapperStateSpace>(mkRV());   // StateSpace::getType() of a wrapper: UNKNOWN
+                    else if (ty == "other")
+                        sp = std::make_shared<ob::SO2StateSpace>();
+                    else
+                        realizable = false;
+                }
+                else if (realizable && subs.empty())
+                    realizable = false;   // an empty compound space cannot be set up
+                else if (realizable)
+                {
+                    auto tc = std::make_shared<TypedCompound>(tyEnum[ty]);
+                    for (auto &k : subs)
+                    {
+                        if (k == "rv")
+                            tc->addSubspace(mkRV(), 1.0);
+                        else if (k == "so2")
+                            tc->addSubspace(std::make_shared<ob::SO2StateSpace>(), 0.5);
+                        else if (k == "so3")
+                            tc->addSubspace(std::make_shared<ob::SO3StateSpace>(), 1.0);
+                        else if (k == "other")
+                            tc->addSubspace(std::make_shared<ob::DiscreteStateSpace>(0, 3), 1.0);
+                        else
+                            realizable = false;
+                    }
+                    tc->lock();
+                    if (cast)
+                        sp = tc;
+                    else if (ty == "unknown")
+                        sp = std::make_shared<ob::WrapperStateSpace>(tc);       // isCompound() forwarded, type UNKNOWN, not castable
+                    else
+                        realizable = false;
+                }
+                if (!realizable || !sp)
+                {
+                    std::cout << "bad-op\n";
+                    continue;
+                }
+                std::string res;
+                try
+                {
+                    auto si = std::make_shared<ob::SpaceInformation>(sp);
+                    si->setStateValidityChecker([](const ob::State *) { return true; });
+                    si->setup();
+                    auto pdef = std::make_shared<ob::ProblemDefinition>(si);
+                    auto ss = sp->allocDefaultStateSampler();
+                    ob::State *x = sp->allocState();
+                    for (size_t k = 0; k < ns; ++k)
+                    {
+                        ss->sampleUniform(x);
+                        pdef->addStartState(x);
+                    }
+                    if (gsamp)
+                    {
+                        auto gs = std::make_shared<ob::GoalStates>(si);
+                        for (size_t k = 0; k < ng; ++k)
+                        {
+                            ss->sampleUniform(x);
+                            gs->addState(x);
+                        }
+                        pdef->setGoal(gs);
+                    }
+                    else
+                        pdef->setGoal(std::make_shared<PlainGoal>(si));
+                    sp->freeState(x);
+                    if (obj)
+                        pdef->setOptimizationObjective(std::make_shared<ob::PathLengthOptimizationObjective>(si));
+                    try
+                    {
+                        ob::PathLengthDirectInfSampler smp(pdef, 10);
+                        res = "ctor ok compound=" + std::to_string(sp->isCompound() ? 1 : 0) + " inf=" + std::to_string(smp.informedIdx_) +
+                              " un=" + std::to_string(smp.uninformedIdx_) + " hasun=" + (smp.uninformedSubSpace_ ? "1" : "0");
+                        if (smp.listPhsPtrs_.size() != ns * ng)
+                            res += " nphs-unexpected";
+                    }
+                    catch (ompl::Exception &e)
+                    {
+                        const std::string m = e.what();
+                        static const std::vector<std::pair<std::string, int>> codes = {
+                            {"An optimization objective must", 1}, {"At least one start state must", 2}, {"sampleable goal region", 3},
+                            {"at least 1 start and", 4}, {"only supports Unknown, RealVector, SE2, and SE3", 5}, {"not a wrapper around", 6},
+                            {"does not have exactly 2 subspaces", 7}, {"contains a subspace (", 8}, {"Provided compound state space of type", 9}};
+                        int code = 0;
+                        for (auto &c : codes)
+                            if (m.find(c.first) != std::string::npos)
+                            {
+                                code = c.second;
+                                break;
+                            }
+                        res = "ctor throw=" + std::to_string(code);
+                    }
+                }
+                catch (std::exception &e)
+                {
+                    res = std::string("ctor env-exception ") + e.what();
+                }
+                std::cout << res << "\n";
+            }
             else if (op == "addstart" && w.pdef && w.space && t.size() >= 2)
             {
                 // history: a start state added to the problem definition AFTER the sampler was constructed
@@ -1030,7 +1264,7 @@ int main()
                         std::cout << "s ok=0\n";
                         continue;
                     }
-                    auto all = allReals(w, w.st);
+                    auto all = normReals(w, w.st);
                     std::vector<double> x(all.begin(), all.begin() + w.n);
                     std::cout << "s ok=1 inb=" << w.space->satisfiesBounds(w.st) << " hc="
                               << bits(w.smp->heuristicSolnCost(w.st).value()) << " fm=" << bits(focalMin(w, x))
